@@ -1542,13 +1542,23 @@ def real_world(kind, adapt=True):
     kw = {} if adapt else {"disable_adaptation": True}
     # "<Operator>@view": the operator acts on slice views of one packed parameter (what the command line builds for partitioned data)
     as_view = kind.endswith("@view")
+    as_transformed = kind.endswith("@transformed")
     kind = kind.split("@")[0]
+    underlying = []
     if kind in ("ScalerOperator", "SlidingWindowOperator", "HMCOperator"):
         if as_view:
             from torchtree.core.parameter import ViewParameter
             packed = Parameter("packed", torch.tensor([0.7, 1.9, 0.2, 9.9, 0.4, 2.2]))
             x = ViewParameter("x", packed, slice(0, 3))
             y = ViewParameter("y", packed, slice(4, 6))
+        elif as_transformed:
+            # the operator acts on the constrained scale, the values live on the unconstrained one (what a model file with transformed
+            # parameters hands to an operator): a rejected move must leave the UNDERLYING values bit-identical too
+            zx = Parameter("zx", torch.tensor([0.7, 1.9, 0.2]).log() * 3.1)
+            zy = Parameter("zy", torch.tensor([0.4, 2.2]).log() * 0.37)
+            x = TransformedParameter("x", zx, torch.distributions.ExpTransform())
+            y = TransformedParameter("y", zy, torch.distributions.ExpTransform())
+            underlying = [zx, zy]
         else:
             x = Parameter("x", torch.tensor([0.7, 1.9, 0.2]))
             y = Parameter("y", torch.tensor([0.4, 2.2]))
@@ -1574,7 +1584,7 @@ def real_world(kind, adapt=True):
             hm = importlib.import_module("torchtree.inference.hmc.operator")
             from torchtree.inference.hmc.integrator import LeapfrogIntegrator
             op = hm.HMCOperator("op", joint, [x, y], LeapfrogIntegrator("lf", 4, 0.15), Parameter("mass", torch.ones(5)), 1.0, 0.8, [], **kw)
-        return {"op": op, "params": [x, y], "joint": joint, "oracle": oracle, "models": [d1, d2, joint]}
+        return {"op": op, "params": [x, y], "joint": joint, "oracle": oracle, "models": [d1, d2, joint], "underlying": underlying}
     if kind == "DirichletOperator":
         if as_view:
             from torchtree.core.parameter import ViewParameter
@@ -1706,6 +1716,7 @@ def restore_real(kind, reps, seed, check_log=True):
     for r in range(reps):
         torch.manual_seed(seed * 1000 + r)
         pre = [_snap(p.tensor) for p in params]
+        pre_under = [_snap(p.tensor) for p in w.get("underlying", [])]
         lp_pre = joint().clone()
         if not _close(lp_pre, oracle()):
             raise Refuted("%s: joint() = %r before the proposal, from-scratch evaluation gives %r" % (kind, float(lp_pre), float(oracle())),
@@ -1730,6 +1741,11 @@ def restore_real(kind, reps, seed, check_log=True):
                               witness={"kind": kind, "rep": r, "parameter": p.id}, replay=_rr(kind, r, seed), confirmed=True)
             if p.tensor.requires_grad:
                 raise Refuted("%s: parameter '%s' requires grad after a rejected move" % (kind, p.id), witness={"kind": kind}, replay=_rr(kind, r, seed), confirmed=True)
+        for p, q in zip(w.get("underlying", []), pre_under):
+            if not _identical(p.tensor, q):
+                raise Refuted("%s: after step(); reject() the parameter '%s' that holds the values of the operator's parameter is %s, before the proposal it was %s "
+                              "(restored through the inverse transform: equal only up to rounding)" % (kind, p.id, p.tensor.tolist(), q.tolist()),
+                              witness={"kind": kind, "rep": r, "parameter": p.id}, replay=_rr(kind, r, seed), confirmed=True)
         if not joint.lp_needs_update and not _close(joint(), lp_pre):
             raise Refuted("%s: joint keeps a stale cached value after reject()" % kind, witness={"kind": kind, "rep": r}, replay=_rr(kind, r, seed), confirmed=True)
         if check_log:
@@ -2655,6 +2671,8 @@ def obligations(tier, seed):
     reps = 200 if thorough else 25
     for k in REAL_KINDS:
         obs.append(Ob("C15.restore.real[%s]" % k, "U", ob_restore_real(k, reps, seed), clause=R, funcs=F, timeout=600))
+    for k in ("ScalerOperator@transformed", "SlidingWindowOperator@transformed", "ScalerOperator@view", "SlidingWindowOperator@view"):
+        obs.append(Ob("C15.restore.real[%s]" % k, "B", ob_restore_real(k, reps, seed), clause=R + " (operator acting on a derived parameter: the underlying values too)", funcs=F, timeout=600))
     obs.append(Ob("C15.restore.real[HMCOperator,all-trials-fail]", "U", hmc_failure_path, clause=R, funcs=F, timeout=120))
     for k in (1, 2):
         obs.append(Ob("C15.gmrf.inf_path[cholesky#%d]" % k, "U", (lambda k=k: gmrf_inf_path(k)), clause="failure sentinel +inf is rejected and restored", funcs=F, timeout=120))
